@@ -1,6 +1,7 @@
 (* C14/Run.v — S-expression front end of the model, extracted to OCaml.
    requests:
      (play (b ...) (step ...))    closers flags, script            -> (ok (taken ...) (hist ...) (calls ...) (pending ...) ...)
+     (srv (o ...))                o = val unpicklable fn klong keyerror ordinary stopiter base   -> (ok (served ...) (indomain ...))
          step = (invoke k) (reg k) (sched k) (send k) (complete k) (resp k ok) (push ok) (closereq) (cut) (reset)
                 (clean) (cleanall) (collect)
          a step that is not enabled is dropped (taken = 0)
@@ -8,7 +9,7 @@
    The model follows the flags regenerated from /repo (Generated.v). *)
 From Coq Require Import ZArith List String Bool PeanoNat.
 From KB Require Import Sx.
-From C14 Require Import Generated Model Spec.
+From C14 Require Import Generated Model ServerModel Spec.
 Import ListNotations.
 
 Definition gen_flags : flags := mkFlags cleanup_iterates_snapshot finally_clears_writer.
@@ -133,8 +134,42 @@ Fixpoint parse_events (l : list sx) : option (list event) :=
   | x :: r => match parse_event x, parse_events r with Some e, Some es => Some (e :: es) | _, _ => None end
   end.
 
+Definition gen_sflags : sflags := mkSFlags server_wraps_generic_errors server_wraps_keyerror.
+
+Definition parse_outcome (x : sx) : option outcome :=
+  match x with
+  | SS t =>
+      if is_tag "val" t then Some (OValue true) else
+      if is_tag "unpicklable" t then Some (OValue false) else
+      if is_tag "fn" t then Some OFunction else
+      if is_tag "klong" t then Some (ORaise CKlong) else
+      if is_tag "keyerror" t then Some (ORaise CKeyError) else
+      if is_tag "ordinary" t then Some (ORaise COrdinary) else
+      if is_tag "stopiter" t then Some (ORaise CStopIter) else
+      if is_tag "base" t then Some (ORaise CBase) else None
+  | _ => None
+  end.
+Fixpoint parse_outcomes (l : list sx) : option (list outcome) :=
+  match l with
+  | [] => Some []
+  | x :: r => match parse_outcome x, parse_outcomes r with Some o, Some os => Some (o :: os) | _, _ => None end
+  end.
+Definition sx_served (s : served) : sx :=
+  match s with
+  | SvResponse false => sx_w "resp" | SvResponse true => sx_w "fnref" | SvTeardown => sx_w "teardown"
+  | SvClosed => sx_w "closed" | SvNothing => sx_w "nothing" | SvStuck => sx_w "stuck"
+  end.
+
 Definition dispatch (x : sx) : sx :=
   match x with
+  | SL [SS t; SL os] =>
+      if is_tag "srv" t then
+        match parse_outcomes os with
+        | Some l => SL [sx_w "ok"; SL (sx_w "served" :: map sx_served (serve gen_sflags l));
+                        SL (sx_w "indomain" :: map (fun o => sx_bool (in_domain o)) l)]
+        | None => sx_err "srv"
+        end
+      else sx_err "op"
   | SL [SS t; SL a; SL b] =>
       if is_tag "play" t then
         match sx_get_zs a, parse_steps b with
